@@ -175,6 +175,8 @@ pub enum Profile {
     /// crashy operations on the sparse geometry class (large virtual size, many L1
     /// entries, several small L2 slices per table)
     CrashySparse,
+    /// fill a self-formatted image until the host file outgrows its refcount table (C12)
+    Grow,
     /// general operations on the sparse geometry class
     Sparse,
 }
@@ -300,6 +302,18 @@ pub fn gen_case(seed: u64, id: usize, profile: Profile, nops: usize) -> Case {
         c.size = rng.range(130, 200) * cs;
         c.rb = Some((9, (*rng.pick(&[2usize, 3, 4, 8])) << 9));
         c.l2 = pick_slice(&mut rng, 9, c.cb, false);
+    }
+    if profile == Profile::Grow {
+        // one block of reftable entries (64) covers 64 * rb_entries clusters: with 512-byte
+        // clusters and 64/32-bit refcounts that is 2 / 4 MiB of host file, which a nearly
+        // full image of about that virtual size outgrows (data + L2 tables + refblocks)
+        c.cb = 9;
+        c.bsb = 9;
+        c.ro = *rng.pick(&[6u8, 6, 5]);
+        let cover: u64 = 64 * ((512 * 8) >> c.ro) * 512;
+        c.size = cover - 512 * rng.below(64);
+        c.l2 = pick_slice(&mut rng, 9, c.cb, true);
+        c.rb = c.l2;
     }
     if profile == Profile::CrashySparse || profile == Profile::Sparse {
         c.cb = *rng.pick(&[10usize, 12, 12]);
@@ -444,6 +458,13 @@ pub fn garbage_tail(case: &Case, img: &mut Vec<u8>) {
 pub fn case_images(case: &Case) -> Result<CaseImages, String> {
     if case.img == "format" {
         let mut img = format_image(case.size, case.cb, case.ro, 1 << case.bsb).map_err(|_| "format err".to_string())?;
+        // the formatter's buffer ends after the first block of the L1 table; the rest of the
+        // table belongs to the image (zeros): stale bytes may start only behind it
+        let (_, _, l1) = qcow2_rs::meta::Qcow2Header::calculate_meta_params(case.size, case.cb, case.ro, 1 << case.bsb);
+        let l1_end = l1.0 as usize + ((l1.1 as usize) << case.cb);
+        if img.len() < l1_end {
+            img.resize(l1_end, 0);
+        }
         garbage_tail(case, &mut img);
         return Ok(CaseImages { files: vec![img], comp: vec![], flat: vec![] });
     }
@@ -682,6 +703,33 @@ pub fn gen_ops(rng: &mut Rng, c: &mut Case, profile: Profile, nops: usize) {
                 }
             }
             Profile::CrashySparse | Profile::Sparse => unreachable!(),
+            Profile::Grow => {
+                // mostly a fill in big pieces (random order), some flush+fsync pairs, a few
+                // discards and rewrites; the table is outgrown when ~97% is written
+                let ncl = c.size / cs;
+                let step = frag_step;
+                let fill = (nops_total as u64 * 3 / 5).max(1);
+                if r >= 15 {
+                    frag_step += 1;
+                }
+                if r < 8 {
+                    Op::Flush
+                } else if r < 12 {
+                    Op::Fsync
+                } else if r < 15 {
+                    let g = rng.below(ncl);
+                    Op::Discard { off: g * cs, len: cs * rng.range(1, 64) }
+                } else if step < fill {
+                    let per = ncl.div_ceil(fill);
+                    let slot = (step * 7919) % fill; // a permutation of the slots when fill is not a multiple of 7919
+                    let g0 = (slot * per).min(ncl - 1);
+                    let n = per.min(ncl - g0).max(1);
+                    Op::Write { off: g0 * cs, len: n * cs, tok }
+                } else {
+                    let (off, len) = gen_range(&mut rng, &*c, 64);
+                    Op::Write { off, len, tok }
+                }
+            }
             Profile::Frag => {
                 // phase 1: fill sequentially; phase 2: punch holes around refblock-slice
                 // boundaries; phase 3: multi-cluster writes that have to stitch runs
